@@ -79,7 +79,8 @@ func (r *WordRenderer) Render(doc ast.Node) error {
 			if r.opts.EnableTables {
 				return r.renderTable(n)
 			}
-			return ast.WalkContinue, nil
+			// 表格支持被关闭时按行输出单元格文本，避免内容丢失
+			return r.renderTableAsText(n)
 
 		case *extast.TableRow:
 			// TableRow节点由Table处理
@@ -435,7 +436,8 @@ func (r *WordRenderer) cleanText(text string) string {
 func (r *WordRenderer) renderTable(node *extast.Table) (ast.WalkStatus, error) {
 	// 收集表格数据
 	var tableData [][]string
-	var alignments []extast.Alignment
+	// 列对齐方式属于表格本身（只有表头的表格也有对齐方式）
+	alignments := node.Alignments
 	var emphases [][]int
 
 	// 遍历表头
@@ -546,6 +548,25 @@ func (r *WordRenderer) renderTable(node *extast.Table) (ast.WalkStatus, error) {
 		}
 	}
 
+	return ast.WalkSkipChildren, nil
+}
+
+// renderTableAsText 表格支持关闭时，将每一行渲染为一个段落，单元格之间用 " | " 分隔
+func (r *WordRenderer) renderTableAsText(node *extast.Table) (ast.WalkStatus, error) {
+	for row := node.FirstChild(); row != nil; row = row.NextSibling() {
+		para := r.doc.AddParagraph("")
+		first := true
+		for cell := row.FirstChild(); cell != nil; cell = cell.NextSibling() {
+			if _, ok := cell.(*extast.TableCell); !ok {
+				continue
+			}
+			if !first {
+				para.AddFormattedText(" | ", nil)
+			}
+			first = false
+			r.renderInlineContent(cell, para)
+		}
+	}
 	return ast.WalkSkipChildren, nil
 }
 
